@@ -29,7 +29,7 @@ namespace vh
     static std::string forcing(Tok& t, std::size_t ncell, std::size_t ns);
     static std::string forcingflat(Tok& t, std::size_t ncell, std::size_t ns);
     static std::string norm(Tok& t, std::size_t ncell, std::size_t ns);
-    static std::string rates(Tok& t, std::size_t ncell, std::size_t nproc);
+    static std::string rates(Tok& t, std::size_t ncell, std::size_t nproc, bool reuse = false);
   };
 
   /// whole-solver cases: (dense L, storage order, LU kind)
